@@ -134,3 +134,20 @@ Example ex_total : validate_marshalled false 4 [0; 0; 0; 0] (TArray (TBase BUint
                 /\ res_p (unmarshal_p 66 false (TStruct [TBase BByte]) (ctx [1] 1 0)) = Err
                 /\ res_p (unmarshal_t 66 false (EVar (EBase BByte)) (ctx [1; 121] 0 0)) = Err.
 Proof. vm_compute. auto. Qed.
+
+(** the typed decoder counts variants (and nothing else): [k] typed variants inside each other *)
+Fixpoint evar_nest (k : nat) : ety := match k with O => EBase BByte | S k' => EVar (evar_nest k') end.
+Example typed_counts_variants :
+  is_ok (unmarshal_t 66 false (evar_nest 64) (ctx (nested_variants 63) 0 0)) = true
+  /\ is_ok (unmarshal_t 66 false (evar_nest 65) (ctx (nested_variants 64) 0 0)) = false
+  /\ edepth (evar_nest 64) = 64 /\ (evars (evar_nest 64) = 64)%nat.
+Proof. vm_compute. repeat split. Qed.
+(* the sub-context of a variant's content carries the raised depth: with the context already at depth 63 a variant can
+   still be entered, its content (validated at depth 64) can then not be a container, and a variant inside it is refused *)
+Example typed_variant_depth :
+  is_ok (unmarshal_t 66 false (EVar (EBase BByte)) {| ubuf := [1; 121; 0; 5]; uoff := 0; unfds := 0; udepth := 63 |}) = true
+  /\ is_ok (unmarshal_t 66 false (EVar (EBase BByte)) {| ubuf := [1; 121; 0; 5]; uoff := 0; unfds := 0; udepth := 64 |}) = false
+  /\ is_ok (unmarshal_t 66 false (EVar (EVar (EBase BByte))) {| ubuf := nested_variants 1; uoff := 0; unfds := 0; udepth := 63 |}) = false
+  /\ is_ok (unmarshal_t 66 false (EVar (EVar (EBase BByte))) {| ubuf := nested_variants 1; uoff := 0; unfds := 0; udepth := 62 |}) = true
+  /\ typed_depth_ok {| ubuf := []; uoff := 0; unfds := 0; udepth := 63 |} (EVar (EArray (EBase BByte))).
+Proof. vm_compute. repeat split; discriminate. Qed.
